@@ -1570,7 +1570,7 @@ def evaluate__lang(self: XPathFunction, context: ta.ContextType = None) -> bool:
             if len(self) > 1 or context is None:
                 return False
 
-            for elem in context.iter_ancestors():
+            for elem in copy(context).iter_ancestors():  # the caller's focus stays where it is
                 if isinstance(elem, EtreeElementNode):
                     if XML_LANG in elem.value.attrib:
                         lang = cast(str, elem.value.attrib[XML_LANG])
